@@ -140,6 +140,15 @@ class World(WsWorld):
             self.start(e)
             self.handshake_raw(is_server)
         self.t_build_done = self.now()
+        # the application may act from inside its callbacks: an operation (often a close) issued from onMessage while
+        # the library is still working through the chunk that carried the message - and possibly the peer's close frame
+        for ep in self.eps:
+            if ch.flag("app-op-inside-onMessage", 0.25):
+                def on_message(payload, is_binary, ep=ep):
+                    if self.ops_left > 0:
+                        self.run.probe("app-op-inside-onMessage")
+                        self._app_op(ep)
+                ep.hooks["on_message"] = on_message
 
     def handshake_pair(self):
         # opening handshake delivered whole (C07/C01 explore its segmentation)
